@@ -79,6 +79,15 @@ CHECKS.update({
    "Sequentially consistent atomics (no weak-memory reordering); data races are looked for by the separate free-running -race pass.", "DESIGN.md §5 C17"),
 })
 
+CHECKS.update({
+ "C10": ("seq", "model_checking", "exhaustive enumeration of command words over a line alphabet on a real driver vs reference game and fresh-driver differential",
+   "Every word of <= 4 (5) position/ucinewgame lines over a 13-line alphabet of extending, repeating, shortening and prefix-colliding commands is fed to a real uci.Driver (isready/readyok hand-shake); the engine's position, counters, draw state and full board snapshot must equal those of the reference game of the last command alone and of a fresh driver given only that command, and continuations on a fork must report draws exactly where the reference game does.",
+   "Bounded by word length and alphabet (two games).", "DESIGN.md §5 C10"),
+ "C18": ("seq", "model_checking", "exhaustive case grids (sequential half) + stateless exploration with function-entry scheduling points (concurrent half)",
+   "Sequential: every (root, depth, configuration) twice / after other searches on the same Search value / under five hash seeds / with noise from one seed must give identical (score, PV, nodes); engine operation words leave the engine's game untouched across analyze/halt. Concurrent: a build with a scheduling point at the entry of every non-trivial function of board/search/eval and the historical engines explores every schedule within the bound of two engines searching side by side (also sharing one Search value) and of a noisy analysis started right after halting another one, with a halt-instant grid and each engine goroutine in turn held back (slow-thread dimension).",
+   "Concurrent half: K v K roots, depth 1-2; interleavings inside math/rand and other non-morlock code are not explored.", "DESIGN.md §5 C18"),
+})
+
 NOT_YET = {}
 
 def main():
@@ -88,13 +97,15 @@ def main():
         pid = p["id"]
         if pid in CHECKS:
             eng, cat, tech, text, note, ref = CHECKS[pid]
+            if pid == "C18":
+                eng = "seq+mcy"
             checks.append({
                 "property_id": pid,
                 "quick_cmd": f"./run {pid} quick",
                 "thorough_cmd": f"./run {pid} thorough",
                 "evidence_file": f"evidence/{pid}.json",
                 "replay_cmd_template": "./run replay {path}",
-                "engine": "statespace" if eng == "seq" else "gosched",
+                "engine": {"seq": "statespace", "mc": "gosched", "seq+mcy": "statespace+gosched"}[eng],
                 "level_claimed": {"category": cat, "text": text, "design_ref": ref},
                 "level_note": note,
                 "technique": tech,
